@@ -49,7 +49,7 @@ var c11TabModes = []string{"exact", "spare", "shared"}
 
 func (c11) ID() string { return "C11" }
 func (c11) Rule() string {
-	return "arguments are built by a deterministic builder from (host kind in {gts.New BasicSequence, seqio.GenBank with NewOrigin not yet decoded, the same after one Bytes() call, seqio.GenBank over &Origin{Buffer: carved slice, Parsed: true}}, buffer shape in {len==cap, spare capacity, sub-slice of a larger residue buffer}, table mode in {len==cap, spare capacity with guard features beyond len, one spare-capacity table shared by host and guest}, lengths, content seed): residues are carved out of a canary buffer (guard bytes before, between len and cap, after); Joined/Ordered/Props (outer and value slices) and the info slices (keywords, references, comments, taxonomy, dblink) carry guard elements beyond len; one Props value and one Joined value are shared between host and guest features. For the NewOrigin kinds the library never sees the carved slice (NewOrigin copies), so the shape only matters for the guest, the WithBytes argument and the gb-raw/basic hosts. A program is 1..4 operations out of {Insert, Embed, Delete, Erase, Slice (forward, negative, wrap-around), Concat (1..3 operands, host or guest first, host twice), Reverse, Rotate, WithInfo, WithFeatures, WithBytes, Copy, Complement, Transcribe, Repair, FeatureSlice.Filter, FeatureSlice.Insert, WithTopology, Segment/Regions.Locate} applied to the same original arguments, followed by a re-application of operation 1. systematic: every operation variant x shape x host kind x table mode as a 1-operation program; every ordered pair of representative variants (all variants in the thorough tier) x shape x host kind; seeded: random arguments (host length<=40, tables<=6 features from the location generator incl. source features, split partial pairs for Repair) and random programs of length 1..4. Oracle: after EVERY operation the deep snapshot of every argument (residues through Bytes()/Len(), bytes between len and cap, guard bytes, every feature's key, location structure incl. nested slices up to cap, qualifiers incl. value slices up to cap, table elements beyond len, info incl. slice capacity, the WithInfo/WithFeatures/WithBytes/FeatureSlice.Insert/Locate arguments) equals the snapshot before it; the result of operation 1 (bytes, Len, features, info through the accessors) reads the same after operations 2..4; the re-applied operation 1 returns an equal result. Origin's lazy decode is not observed (Bytes() is never called on an undecoded host before the first operation; the expected residues are the ones the Origin was built from). A panic is not a purity verdict: arguments are still compared; the C12 Repair panic on a top-level join is skipped, any other panic is reported. non-trivial: some argument has reachable memory beyond its length (buffer shape != len==cap or a spare-capacity table); distinct: canonical case text."
+	return "arguments are built by a deterministic builder from (host kind in {gts.New BasicSequence, seqio.GenBank with NewOrigin not yet decoded, the same after one Bytes() call, seqio.GenBank over &Origin{Buffer: carved slice, Parsed: true}}, buffer shape in {len==cap, spare capacity, sub-slice of a larger residue buffer}, table mode in {len==cap, spare capacity with guard features beyond len, one spare-capacity table shared by host and guest}, lengths, content seed): residues are carved out of a canary buffer (guard bytes before, between len and cap, after); Joined/Ordered/Props (outer and value slices) and the info slices (keywords, references, comments, taxonomy, dblink) carry guard elements beyond len; one Props value and one Joined value are shared between host and guest features. For the NewOrigin kinds the library never sees the carved slice (NewOrigin copies), so the shape only matters for the guest, the WithBytes argument and the gb-raw/basic hosts. A program is 1..4 operations out of {Insert, Embed, Delete, Erase, Slice (forward, negative, wrap-around), Concat (1..3 operands, host or guest first, host twice), Reverse, Rotate, WithInfo, WithFeatures, WithBytes, Copy, Complement, Transcribe, Repair, FeatureSlice.Filter, FeatureSlice.Insert, WithTopology, Segment/Regions.Locate} applied to the same original arguments, followed by a re-application of operation 1. systematic: every operation variant x shape x host kind x table mode as a 1-operation program; every ordered pair of representative variants (all variants in the thorough tier) x shape x host kind; seeded: random arguments (host length<=40, tables<=6 features from the location generator incl. source features, split partial pairs for Repair) and random programs of length 1..4. Oracle: after EVERY operation the deep snapshot of every argument (residues through Bytes()/Len(), bytes between len and cap, guard bytes, every feature's key, location structure incl. nested slices up to cap, qualifiers incl. value slices up to cap, table elements beyond len, info incl. slice capacity, the WithInfo/WithFeatures/WithBytes/FeatureSlice.Insert/Locate arguments) equals the snapshot before it; the result of operation 1 (bytes, Len, features, info through the accessors) reads the same after operations 2..4; the re-applied operation 1 returns an equal result. Origin's lazy decode is not observed (Bytes() is never called on an undecoded host before the first operation; the expected residues are the ones the Origin was built from). A panic is not a purity verdict: arguments are still compared; the C12 Repair panic on a top-level join is skipped, any other panic is reported. non-trivial: some argument has reachable memory beyond its length (buffer shape != len==cap or a spare-capacity table); distinct: canonical case text. The WithFeatures argument is a table in caller order (source feature last) half of the time."
 }
 
 func (c11) RequiredBuckets(tier string) []string {
@@ -534,7 +534,16 @@ func c11Build(p c11Params) *c11World {
 		w.guest = c11MakeSeq(r, p.guestKind, p.gshape, "G", p.G, gspare, gtab)
 	}
 	w.aux = c11Carve(r, c11Shapes[r.Intn(3)], c11Residues(r, r.Intn(p.L+3)), 1+r.Intn(6))
-	w.tab2 = c11MakeTab(c11Features(r, r.Intn(4), p.L, "w", false, sp, nil), r.Intn(3))
+	ff2 := c11Features(r, r.Intn(4), p.L, "w", false, sp, nil)
+	if len(ff2) >= 2 && r.Intn(2) == 0 {
+		// a table as a caller assembled it: not in location order, its source
+		// feature not in the first place.
+		for i, j := 0, len(ff2)-1; i < j; i, j = i+1, j-1 {
+			ff2[i], ff2[j] = ff2[j], ff2[i]
+		}
+		ff2[len(ff2)-1].Key = "source"
+	}
+	w.tab2 = c11MakeTab(ff2, r.Intn(3))
 	if p.hostKind == "basic" {
 		w.info2same = c11Info{Name: "I2", Tags: []string{"x"}}
 		w.info2other = c11Fields(r, "I2", p.L)
